@@ -103,6 +103,15 @@ Theorem p2d_finish_always_returns :
     run Sy sxor s0 (rows2d d l) (d + l) (d * l + d + l) (S (d * l + d + l)) hist = Some s /\ ml_finish sxor s0 fuel perm s = Some o.
 Proof. exact p2d_session_total. Qed.
 
+(* the two limit tests at the head of of_2d_parity_set_fec_parameters, regenerated from the source on every run
+   (gen/GenParams.v): passed iff k <= MAX_K and the (UINT32) total <= MAX_N; the shape test is create2d's *)
+From Coq Require Import ZArith.
+From OFV Require Import CSem Params ParamsTie.
+From OFV.gen Require Import GenConsts GenParams.
+Theorem p2d_source_checks_are_the_two_limits : forall k r L : Z, is_u32 k -> is_u32 r ->
+  p2d_prefix k c_p2d_max_k r c_p2d_max_n L = Some ((k <=? c_p2d_max_k)%Z && (u32 (k + r) <=? c_p2d_max_n)%Z).
+Proof. exact p2d_prefix_is_limits. Qed.
+
 Print Assumptions p2d_each_check_has_its_own_repair.
 Print Assumptions p2d_finish_recovers_exactly_the_determined_patterns.
 Print Assumptions p2d_each_source_in_one_row_check_and_one_column_check.
